@@ -490,6 +490,8 @@ def ob_time_resolution(ctx):
 
 
 def run(ctx):
+    from ..calendar_rule import rule_leap
+    ctx.attempt(rule_leap, ctx, "C16.calendar", ['typhon/files/fileset.py', 'typhon/utils/timeutils.py'])
     for r in (rule_shortcut, rule_window, rule_cover, rule_nearest, rule_single, rule_dispatch, rule_keys):
         ctx.attempt(r, ctx)
     # the window is computed from _sub_dir_time_resolution, which the path setter must keep current
@@ -497,7 +499,8 @@ def run(ctx):
     ctx.attempt(C01.rule_pathstate, ctx, "C01.pathstate")
     # the candidates are what find(start, end, filters=...) yields: "nearest among all files in the neighbourhood" holds only
     # if find() yields all of them - the selection rules of C01 are reachable from find_closest
-    for r in (C01.rule_semiopen, C01.rule_prune, C01.rule_exclude, C01.rule_blacklist):
+    # (rule_trunc_table: the periods of the directory units - the window of find_closest is +- one such period: month >= 31 d, year >= 366 d)
+    for r in (C01.rule_semiopen, C01.rule_prune, C01.rule_exclude, C01.rule_blacklist, C01.rule_trunc_table):
         ctx.attempt(r, ctx)
     from .C03 import tree_rules
     from .C02 import rule_anchor
